@@ -327,6 +327,15 @@ impl Posted {
     pub fn plain(cons: Cons) -> Posted {
         Posted { cons, mode: Mode::Post, tag: false }
     }
+    /// every variable occurrence incl. the reification literal (with repetitions)
+    pub fn vars_multi(&self) -> Vec<usize> {
+        let mut v = self.cons.vars_multi();
+        match self.mode {
+            Mode::ImpliedBy(l) | Mode::Reify(l) => v.push(l.var),
+            _ => {}
+        }
+        v
+    }
     pub fn vars(&self) -> Vec<usize> {
         let mut v = self.cons.vars();
         match self.mode {
